@@ -261,8 +261,10 @@ Definition te_ev (t : tentry) : string := snd (snd t).
 
 (** Walk a method body with the stack of held locks: [lock:m] pushes [m],
     [unlock:*] pops; [defer-unlock:*] and [defer-call:m] are stacked and run,
-    last registered first, when the method returns (a deferred unlock pops, a
-    deferred call of a method of the same type is inlined there); [call:m] of a
+    last registered first, when the method returns (a deferred unlock pops and
+    is entered in the trace as the [unlock:] of the mode it releases, at the
+    place where it runs; a deferred call of a method of the same type is
+    inlined there); [call:m] of a
     method of the same type is inlined (fuelled) in the caller's lock context;
     a call of anything else (a hook field) is an event.  Returns the trace and
     the locks held on return. *)
@@ -285,7 +287,9 @@ Fixpoint trace (fuel : nat) (ty cur : string) (held : list string) (evs : list s
            match ds with
            | [] => ([], held)
            | d :: r =>
-               if String.eqb d "" then run r (tl held)
+               if String.eqb d "" then
+                 let '(t, h) := run r (tl held) in
+                 ((held, (cur, String.append "unlock:" (hd "" held))) :: t, h)
                else match inline d held with
                     | None => let '(t, h) := run r held in ((held, (cur, String.append "call:" d)) :: t, h)
                     | Some (t1, h1) => let '(t2, h2) := run r h1 in ((t1 ++ t2)%list, h2)
@@ -381,8 +385,9 @@ Definition fuel_enough : bool :=
                              (fst (trace_fuel 16 (fst me) (snd me)))) top_methods.
 
 (** where the add/rem hooks run: IndexedState calls them inside its write
-    lock; LinearState calls them with no lock held (Add: after the storage
-    write and before taking the lock; Rem: before anything else) *)
+    lock; LinearState calls them with no lock held (Add: before it takes the
+    lock for the storage write and the memory update; Rem: before anything
+    else) *)
 Definition is_hook_call (e : string) : bool := mem_str e ["call:addHook"; "call:remHook"].
 Definition hook_lock_context_ok : bool :=
   forallb (fun me =>
@@ -455,6 +460,22 @@ Definition readers_purge_under_write_lock_statement : Prop :=
                    te_in t = "purge" /\ te_ev t = "lock:w" /\ te_held t = []) /\
   tlookup "IndexedState.expire" lock_table = Some [] /\ tlookup "LinearState.expire" lock_table = Some [].
 
+(** ** Every storage write holds the write lock
+
+    (Before the repair of D44 this was false: IndexedState.Add called
+    Store.Add after releasing the lock, LinearState.Add / rem / Clear /
+    Delete called the store before taking it.) *)
+Definition store_writes_ok : bool :=
+  forallb (fun me =>
+             forallb (fun t => negb (is_store_write (te_ev t)) || mem_str "w" (te_held t))
+                     (trace_of (fst me) (snd me)))
+          top_methods.
+
+Definition store_writes_hold_write_lock_statement : Prop :=
+  forall m evs, In (m, evs) lock_table -> is_top m = true ->
+    forall t, In t (trace_of m evs) -> is_store_write (te_ev t) = true ->
+      In "w" (te_held t).
+
 (** ** The two phases of Add *)
 
 Inductive phase := PMem | PSto.
@@ -483,23 +504,116 @@ Definition phases (m : string) : list (phase * bool) :=
                         (trace_of m evs))
   end.
 
+(** (Before the repair of D44: indexed = [(PMem, true); (PSto, false)],
+    linear = [(PSto, false); (PMem, true)].) *)
 Definition add_phases_match_source_statement : Prop :=
-  phases "IndexedState.Add" = [(PMem, true); (PSto, false)] /\
-  phases "LinearState.Add" = [(PSto, false); (PMem, true)].
+  phases "IndexedState.Add" = [(PMem, true); (PSto, true)] /\
+  phases "LinearState.Add" = [(PSto, true); (PMem, true)].
 
-(** ** Two concurrent Adds, each made of two atomic steps *)
+(** ** Writers as critical sections
 
-Inductive astep := Mem (id v : nat) | Sto (id v : nat).
+    The finer reading of the same trace: the acquisitions and releases of the
+    WRITE lock (explicit or deferred), the memory updates and the storage
+    writes of a method, in the order in which they happen, consecutive equal
+    entries merged. *)
+Inductive shape := SAcq | SRel | SMem | SSto.
+
+Definition shape_eqb (a b : shape) : bool :=
+  match a, b with SAcq, SAcq | SRel, SRel | SMem, SMem | SSto, SSto => true | _, _ => false end.
+
+Fixpoint squeeze_by {A} (eqb : A -> A -> bool) (l : list A) : list A :=
+  match l with
+  | [] => []
+  | x :: r => match squeeze_by eqb r with
+              | y :: r' => if eqb x y then y :: r' else x :: y :: r'
+              | [] => [x]
+              end
+  end.
+
+Definition shape_of (m : string) : list shape :=
+  match tlookup m lock_table with
+  | None => []
+  | Some evs =>
+      squeeze_by shape_eqb
+        (flat_map (fun t => if String.eqb (te_ev t) "lock:w" then [SAcq]
+                            else if String.eqb (te_ev t) "unlock:w" then [SRel]
+                            else if is_mutation (te_ev t) then [SMem]
+                            else if is_store_write (te_ev t) then [SSto]
+                            else [])
+                  (trace_of m evs))
+  end.
+
+(** the memory update and the storage write of an Add are ONE critical
+    section (no release of the lock between them), in both state kinds; so
+    are the storage write and the memory update of Clear and Delete *)
+Definition add_is_one_critical_section_statement : Prop :=
+  shape_of "IndexedState.Add" = [SAcq; SMem; SSto; SRel] /\
+  shape_of "LinearState.Add" = [SAcq; SSto; SMem; SRel].
+
+Definition clear_is_one_critical_section_statement : Prop :=
+  forall m, In m ["IndexedState.Clear"; "IndexedState.Delete"; "LinearState.Clear"; "LinearState.Delete"] ->
+    shape_of m = [SAcq; SSto; SMem; SRel].
+
+(** [pairs_rel a b l]: [l] starts with one or more pairs [a; b] followed by
+    [SRel]; returns what follows *)
+Fixpoint pairs_rel (a b : shape) (l : list shape) : option (list shape) :=
+  match l with
+  | x :: y :: r =>
+      if shape_eqb x a && shape_eqb y b then
+        match r with
+        | SRel :: r' => Some r'
+        | _ => pairs_rel a b r
+        end
+      else None
+  | _ => None
+  end.
+
+(** [l] is one or more critical sections [SAcq (a b)+ SRel] *)
+Fixpoint paired_sections (fuel : nat) (a b : shape) (l : list shape) : bool :=
+  match fuel with
+  | O => false
+  | S f =>
+      match l with
+      | SAcq :: r =>
+          match pairs_rel a b r with
+          | Some [] => true
+          | Some r' => paired_sections f a b r'
+          | None => false
+          end
+      | _ => false
+      end
+  end.
+
+(** Rem (the removal of the id and of its dependents, then the purge of the
+    expired items its searches met) is a sequence of critical sections, each
+    made of pairs "memory removal, storage removal" (indexed) / "storage
+    removal, memory removal" (linear) *)
+Definition rem_is_paired_sections_statement : Prop :=
+  paired_sections 64 SMem SSto (shape_of "IndexedState.Rem") = true /\
+  paired_sections 64 SSto SMem (shape_of "LinearState.Rem") = true.
+
+(** ** Two concurrent writers *)
+
+Inductive astep :=
+| Mem (id v : nat) | Sto (id v : nat)       (* write [v] under [id] in memory / in storage *)
+| MemDel (id : nat) | StoDel (id : nat)     (* remove [id] from memory / from storage *)
+| MemClr | StoClr.                          (* remove everything *)
 
 Record mstate := mkM { m_mem : nat -> option nat; m_sto : nat -> option nat }.
 
 Definition upd (f : nat -> option nat) (k v : nat) : nat -> option nat :=
   fun x => if Nat.eqb x k then Some v else f x.
+Definition del (f : nat -> option nat) (k : nat) : nat -> option nat :=
+  fun x => if Nat.eqb x k then None else f x.
 
 Definition astep_do (st : mstate) (a : astep) : mstate :=
   match a with
   | Mem id v => mkM (upd (m_mem st) id v) (m_sto st)
   | Sto id v => mkM (m_mem st) (upd (m_sto st) id v)
+  | MemDel id => mkM (del (m_mem st) id) (m_sto st)
+  | StoDel id => mkM (m_mem st) (del (m_sto st) id)
+  | MemClr => mkM (fun _ => None) (m_sto st)
+  | StoClr => mkM (m_mem st) (fun _ => None)
   end.
 
 Definition arun (st : mstate) (l : list astep) : mstate := fold_left astep_do l st.
@@ -507,11 +621,12 @@ Definition arun (st : mstate) (l : list astep) : mstate := fold_left astep_do l 
 (** memory and storage agree *)
 Definition agree (st : mstate) : Prop := forall x, m_mem st x = m_sto st x.
 
-(** the program of one Add of state type [ty], read off the lock table *)
+(** the two phases of one Add of state type [ty], read off the lock table *)
 Definition add_prog (ty : string) (id v : nat) : list astep :=
   map (fun p => match fst p with PMem => Mem id v | PSto => Sto id v end)
       (phases (String.append ty ".Add")).
 
+(** all merges of two step lists (no lock) *)
 Fixpoint interleavings {A} (l1 : list A) : list A -> list (list A) :=
   match l1 with
   | [] => fun l2 => [l2]
@@ -527,33 +642,126 @@ Definition state_types : list string := ["IndexedState"; "LinearState"].
 
 Definition m0 : mstate := mkM (fun _ => None) (fun _ => None).
 
-(** D44: some interleaving of two Adds of ONE id leaves one client's value in
-    memory and the other client's value in storage *)
-Definition same_id_adds_can_diverge_counterexample_statement : Prop :=
-  forall ty, In ty state_types ->
-    exists il, In il (interleavings (add_prog ty 1 10) (add_prog ty 1 20)) /\
-               ((m_mem (arun m0 il) 1%nat = Some 20%nat /\ m_sto (arun m0 il) 1%nat = Some 10%nat) \/
-                (m_mem (arun m0 il) 1%nat = Some 10%nat /\ m_sto (arun m0 il) 1%nat = Some 20%nat)).
+(** *** The lock
 
-Definition diverges_at (id : nat) (st : mstate) : bool :=
-  match m_mem st id, m_sto st id with
-  | Some a, Some b => negb (Nat.eqb a b)
-  | None, None => false
-  | _, _ => true
+    A writer is a list of steps: it acquires the state's write lock, releases
+    it, or acts on memory or storage.  [lsched h p1 p2 il]: the two writers
+    [p1] and [p2] can run to completion, from the moment where the lock is
+    held by [h] ([None]: free, [Some true]: by the first, [Some false]: by
+    the second), in a schedule whose actions are, in order, [il].  The lock is
+    exclusive: [Acq] needs the lock free, [Rel] needs it held by the writer
+    that releases it.  An action needs nothing (an action outside every
+    critical section is allowed: that is what the code did before the repair
+    of D44, see [prerepair_adds_diverge_example]). *)
+Inductive lstep := Acq | Rel | Act (a : astep).
+
+Inductive lsched : option bool -> list lstep -> list lstep -> list astep -> Prop :=
+| LS_done : lsched None [] [] []
+| LS_acq1 p1 p2 il : lsched (Some true) p1 p2 il -> lsched None (Acq :: p1) p2 il
+| LS_rel1 p1 p2 il : lsched None p1 p2 il -> lsched (Some true) (Rel :: p1) p2 il
+| LS_act1 h a p1 p2 il : lsched h p1 p2 il -> lsched h (Act a :: p1) p2 (a :: il)
+| LS_acq2 p1 p2 il : lsched (Some false) p1 p2 il -> lsched None p1 (Acq :: p2) il
+| LS_rel2 p1 p2 il : lsched None p1 p2 il -> lsched (Some false) p1 (Rel :: p2) il
+| LS_act2 h a p1 p2 il : lsched h p1 p2 il -> lsched h p1 (Act a :: p2) (a :: il).
+
+(** [wl held p st]: the writer [p], which holds the lock iff [held], in the
+    state [st]: every action of [p] happens inside a critical section (between
+    an [Acq] and the next [Rel] of [p]), [p] ends with the lock released, and
+    every critical section of [p], entered in ANY state where memory and
+    storage agree, is left in such a state. *)
+Fixpoint wl (held : bool) (p : list lstep) (st : mstate) : Prop :=
+  match p with
+  | [] => held = false
+  | Acq :: r => held = false /\ forall st', agree st' -> wl true r st'
+  | Rel :: r => held = true /\ agree st /\ forall st', agree st' -> wl false r st'
+  | Act a :: r => held = true /\ wl true r (astep_do st a)
   end.
 
-(** exactly two of the six interleavings diverge *)
-Definition same_id_divergence_count_statement : Prop :=
+Definition well_locked (p : list lstep) : Prop := forall st, wl false p st.
+
+(** ANY two well-locked writers, ANY lock-respecting schedule: memory and
+    storage agree at the end *)
+Definition locked_writers_never_diverge_statement : Prop :=
+  forall p1 p2 st il,
+    well_locked p1 -> well_locked p2 -> agree st ->
+    lsched None p1 p2 il -> agree (arun st il).
+
+(** the writers of the code, read off the lock table *)
+Definition inst (mem sto : astep) (s : shape) : lstep :=
+  match s with SAcq => Acq | SRel => Rel | SMem => Act mem | SSto => Act sto end.
+
+(** Add of [v] under [id] *)
+Definition add_lprog (ty : string) (id v : nat) : list lstep :=
+  map (inst (Mem id v) (Sto id v)) (shape_of (String.append ty ".Add")).
+
+(** the removal of one id: the first pair of Rem's first critical section *)
+Definition rem_pair (ty : string) (id : nat) : list lstep :=
+  map (inst (MemDel id) (StoDel id)) (firstn 2 (tl (shape_of (String.append ty ".Rem")))).
+
+(** one critical section that removes [ids] one after the other *)
+Definition rem_section (ty : string) (ids : list nat) : list lstep :=
+  (Acq :: flat_map (rem_pair ty) ids ++ [Rel])%list.
+
+(** Rem: the id with its dependents ([ids]), then, if its searches met expired
+    items ([pids], with their dependents), their purge in a second section *)
+Definition rem_lprog (ty : string) (ids pids : list nat) : list lstep :=
+  (rem_section ty ids ++ match pids with [] => [] | _ => rem_section ty pids end)%list.
+
+(** Clear *)
+Definition clear_lprog (ty : string) : list lstep :=
+  map (inst MemClr StoClr) (shape_of (String.append ty ".Clear")).
+
+Definition code_writers_well_locked_statement : Prop :=
   forall ty, In ty state_types ->
-    length (interleavings (add_prog ty 1 10) (add_prog ty 1 20)) = 6%nat /\
-    length (filter (fun il => diverges_at 1 (arun m0 il))
-                   (interleavings (add_prog ty 1 10) (add_prog ty 1 20))) = 2%nat.
+    (forall id v, well_locked (add_lprog ty id v)) /\
+    (forall ids pids, well_locked (rem_lprog ty ids pids)) /\
+    well_locked (clear_lprog ty).
+
+(** (D44, repaired) two Adds to ONE id of one state, and an Add and a Rem that
+    removes that id (first, or among its dependents, or in its purge): ALL
+    schedules that respect the lock keep memory and storage in agreement, and
+    after two Adds both hold the value of ONE of the two clients. *)
+Definition same_id_adds_never_diverge_statement : Prop :=
+  forall ty, In ty state_types ->
+    (forall id v1 v2 st il,
+       agree st -> lsched None (add_lprog ty id v1) (add_lprog ty id v2) il ->
+       agree (arun st il) /\
+       (m_mem (arun st il) id = Some v1 \/ m_mem (arun st il) id = Some v2)) /\
+    (forall id v ids pids st il,
+       agree st -> lsched None (add_lprog ty id v) (rem_lprog ty ids pids) il ->
+       agree (arun st il)) /\
+    (forall id v st il,
+       agree st -> lsched None (add_lprog ty id v) (clear_lprog ty) il ->
+       agree (arun st il)).
+
+(** the lock makes an Add ONE step with respect to another Add: the two phases
+    of one Add are never separated by a phase of the other - every schedule is
+    one of the two serial orders *)
+Definition same_id_adds_are_serial_statement : Prop :=
+  forall ty id1 v1 id2 v2 il, In ty state_types ->
+    lsched None (add_lprog ty id1 v1) (add_lprog ty id2 v2) il ->
+    il = (add_prog ty id1 v1 ++ add_prog ty id2 v2)%list \/
+    il = (add_prog ty id2 v2 ++ add_prog ty id1 v1)%list.
+
+(** the lock model is not vacuous: with the writers of the code BEFORE the
+    repair of D44 (indexed: storage write after the release; linear: storage
+    write before the acquisition) it has a schedule that leaves one client's
+    value in memory and the other client's value in storage *)
+Definition prerepair_add (indexed : bool) (id v : nat) : list lstep :=
+  if indexed then [Acq; Act (Mem id v); Rel; Act (Sto id v)]
+  else [Act (Sto id v); Acq; Act (Mem id v); Rel].
+
+Definition prerepair_adds_diverge_statement : Prop :=
+  forall indexed, exists il,
+    lsched None (prerepair_add indexed 1 10) (prerepair_add indexed 1 20) il /\
+    m_mem (arun m0 il) 1%nat <> m_sto (arun m0 il) 1%nat.
 
 Definition sequential_adds_agree_statement : Prop :=
   forall ty1 ty2 id1 v1 id2 v2 st,
     In ty1 state_types -> In ty2 state_types -> agree st ->
     agree (arun st (add_prog ty1 id1 v1 ++ add_prog ty2 id2 v2)).
 
+(** (holds for ALL merges of the phases, lock or no lock) *)
 Definition different_ids_never_diverge_statement : Prop :=
   forall ty1 ty2 id1 v1 id2 v2 st il,
     In ty1 state_types -> In ty2 state_types -> id1 <> id2 -> agree st ->
